@@ -41,7 +41,11 @@ if not getattr(pysasl, '_verif_cached', False):
 # ManageSieve logs handled exceptions with a traceback: keep stderr clean
 logging.getLogger('pymap.sieve.manage').setLevel(logging.CRITICAL + 1)
 
-USERS = {'user1': 'pass1', 'user2': 'pass2', 'adm': ('admpw', {'admin'})}
+# user2's secret is long (longer than the 72 octets bcrypt-style hashes look at, and
+# than any block of a digest): wrong credentials that share a long prefix / suffix
+# with it are part of the "wrongpw" class
+_LONG = 'pass2-' + ''.join(chr(97 + (7 * i) % 26) + str(i % 10) for i in range(80))
+USERS = {'user1': 'pass1', 'user2': _LONG, 'adm': ('admpw', {'admin'})}
 MODEL_USER = {'u1': 'user1', 'u2': 'user2', 'adm': 'adm', 'ghost': 'ghost'}
 REAL_USER = {v: k for k, v in MODEL_USER.items()}
 NONE = '-'
@@ -174,7 +178,11 @@ def _plain_fields(cr: dict, rng):
     if k == 'wrongpw':
         other = rng.choice([password(u) for u in USERS if u != c]
                            + ['wrong', password(c) + 'x', password(c)[:-1],
-                              password(c).upper()])
+                              password(c).upper(), password(c) + ' ',
+                              password(c)[:len(password(c)) // 2],
+                              password(c)[:-3] + 'zzz', 'x' + password(c)[1:],
+                              password(c)[:64] + 'q' * max(1, len(password(c)) - 64),
+                              password(c)[:72] + 'tail', password(c) * 2])
         return z, c, other
     if k == 'emptypw':
         return z, c, ''
